@@ -54,10 +54,13 @@ func runTRound(m *model.Model, s *ob.Set) {
 				for d := int64(0); d < 10; d++ {
 					var fails []string
 					paths := 0
-					for p := int64(0); p < 10; p++ {
+					for _, p := range []int64{0, 1, 2, 5, 9} { // only the parity of the last kept digit can matter
 						for ms := int64(0); ms < 2; ms++ {
 							for cy := int64(0); cy < 2; cy++ {
 								for _, exp0 := range []int64{0, e.maxExp} {
+									if exp0 != 0 && cy == 0 {
+										continue // the exponent is only consulted on a carry
+									}
 									f, n := roundScenario(m, e, fn, mode, neg, sbArg, d, p, ms, cy, exp0)
 									paths += n
 									nCheck++
